@@ -152,4 +152,7 @@ def recursive_truncation(tree: TreeTensorNetwork,
     if root_id != tree.orthogonality_center_id or tree.orthogonality_center_id is None:
         tree.canonical_form(root_id)
     truncate_node(root_id, tree, svd_params)
+    # The inserted projectors destroy the isometry property of the truncated
+    # tensors, so the canonical form recorded for the root is restored.
+    tree.canonical_form(root_id)
     return tree
